@@ -81,6 +81,11 @@ def cases(tier, seed):
     for k in range(36 if tier == "quick" else 300):
         out.append({"kind": "stop", "cls": "stop_tuned_tolerance", "idx": idx, "seed": seed, "maxd": maxd, "tuned": True})
         idx += 1
+    for k_, pat in enumerate(["pure_imag", "real_only", "axis_i", "axis_j", "axis_k", "real_j", "real_k", "i_k", "j_k", "complex_subfield", "real_i_j", "all",
+                              "pure_imag+masked", "real_j+masked", "j_k+masked", "all+masked"]):
+        for rep_ in range(2 if tier == "quick" else 12):
+            out.append({"kind": "patterns", "cls": "component_patterns", "pattern": pat, "idx": idx, "seed": seed})
+            idx += 1
     # long runs on ill-conditioned full-rank input (enough iterations for the smallest singular directions to converge)
     for k in range(12 if tier == "quick" else 96):
         out.append({"kind": "longrun", "cls": "longrun_ill_conditioned", "idx": idx, "seed": seed, "maxd": maxd})
@@ -89,7 +94,75 @@ def cases(tier, seed):
 
 
 def run_case(spec, ctx, R):
-    {"traj": _traj, "stop": _stop, "longrun": _longrun}[spec["kind"]](spec, ctx, R)
+    {"traj": _traj, "stop": _stop, "longrun": _longrun, "patterns": _patterns}[spec["kind"]](spec, ctx, R)
+
+
+def _patterns(spec, ctx, R):
+    """Operands whose entries live on a SUBSET of the four components (purely imaginary, one axis, two axes, real only, complex subfield,
+    sparse masks per component), dense and as SparseQuaternionMatrix (whose component matrices then have no stored entries at all): the
+    iterates are those of the documented recurrence X0 = A^H/||A||_F^2, X <- (1+gamma) X - gamma X A X (resp. the third-order map), evaluated
+    by the reference algebra on the same matrix."""
+    S = R.solver
+    rng = gen.rng_for(spec["seed"], "c03pat", spec["idx"])
+    m, n = (int(x) for x in rng.integers(1, 6, size=2))
+    pat = spec["pattern"]
+    c = rng.standard_normal((m, n, 4))
+    keep = {"pure_imag": [1, 2, 3], "real_only": [0], "axis_i": [1], "axis_j": [2], "axis_k": [3], "real_j": [0, 2], "real_k": [0, 3], "i_k": [1, 3],
+            "j_k": [2, 3], "complex_subfield": [0, 1], "real_i_j": [0, 1, 2], "all": [0, 1, 2, 3]}[pat.split("+")[0]]
+    mask = np.zeros(4); mask[keep] = 1.0
+    c = c * mask
+    if pat.endswith("+masked"):
+        c = c * (rng.random((m, n, 4)) < 0.6)            # different sparsity pattern in every component
+        c[0, 0, keep[0]] = 1.5
+    A = refq.qa(c)
+    if embed.rank(A, rtol=1e-9) < min(m, n):
+        ctx.skip("trajectory", "component-pattern operand happens to be rank-deficient")
+        return
+    kap = embed.cond(A)
+    gamma = float(rng.choice(GAMMAS))
+    K = 5
+    nrm2 = refq.fro(A) ** 2
+    AH = refq.herm(A)
+    for which in ("damped_sparse", "damped_dense", "third_dense"):
+        third = which == "third_dense"
+        X = AH * (1.0 / nrm2)
+        ref = [X]
+        for k in range(K):
+            XA = refq.matmul(X, A)
+            if third:
+                XAX = refq.matmul(XA, X)
+                X = X * 3.0 - XAX * 3.0 + refq.matmul(XA, XAX)
+            else:
+                X = X * (1.0 + gamma) - refq.matmul(XA, X) * gamma
+            ref.append(X)
+        site = f"patterns:{which}"
+        tags = ["pattern:" + pat]
+        for k in (0, 1, K):
+            try:
+                if third:
+                    out = S.HigherOrderNewtonSchulzPseudoinverse(max_iter=k, tol=0.0).compute(A.copy())
+                else:
+                    arg = R.sparse_from_dense(A) if which == "damped_sparse" else A.copy()
+                    out = S.NewtonSchulzPseudoinverse(gamma=gamma, max_iter=k, tol=0.0, compute_residuals=bool(spec["idx"] % 2)).compute(arg)
+                Xk = out[0]
+            except Exception as e:
+                ctx.check("unexpected_exception", False, site=site, tags=tags, detail={"exception": repr(e)[:200], "k": k, "shape": [m, n]})
+                continue
+            ctx.distinct(A, which, gamma, k)
+            if getattr(Xk, "shape", None) != (n, m) or not refq.is_finite(Xk):
+                ctx.check("finite", False, site=site, tags=tags, detail={"k": k})
+                continue
+            nm = refq.fro(ref[k])
+            ctx.check("trajectory", refq.fro(Xk - ref[k]), CT * EPS * (k + 2) * max(m, n) * (kap * kap if third else kap) * nm + 1e-300, site=site, tags=tags,
+                      detail={"k": k, "shape": [m, n], "gamma": gamma, "kappa": kap})
+            if not third and k >= 1 and spec["idx"] % 2:
+                pr = penrose(A, Xk)
+                rep = out[1]
+                nX, nA = refq.fro(Xk), refq.fro(A)
+                hb = {"AXA-A": nA * nA * nX, "XAX-X": nX * nX * nA, "AX-herm": nA * nX, "XA-herm": nA * nX}
+                worst = max(abs(float(rep[key][k - 1]) - pr[key]) / (C * EPS * max(m, n) * hb[key] + 1e-300) for key in pr)
+                ctx.check("history_truthful", worst, 1.0, site=site, tags=tags, detail={"k": k})
+    ctx.hit("inputs:component_patterns")
 
 
 # ---- spectral model -----------------------------------------------------------------------
